@@ -39,6 +39,7 @@ func Reset() {
 	for _, p := range pools {
 		p.items = nil
 	}
+	pools = nil
 	Violations = nil
 	Gets, Puts = 0, 0
 }
